@@ -10,6 +10,14 @@
   matching, C02–C05 signing/hashing/redaction, C14 HTML tree walk). Stack exhaustion, allocator
   aborts and hangs inside dependencies cannot be exhibited by a model; they are explored by the
   mutation stream of the harness (T3) only.
+
+  Part 2 ("More hand-written scanners") holds the theorems for: the `multipart/mixed` splitter of the
+  federation media responses, `CallMemberStateKey::from_str`, the `language-` class scan of
+  `CodeData::parse`, `TagName::display_name`, `remove_plain_reply_fallback`, the byte-level index
+  arithmetic of `matches_word_impl`/`char_at`/`find_prev_char`, and an index-faithful model of the
+  `Content-Disposition` parser that is proven equal to the suffix-passing one of part 1. In these
+  models every index, slice, `unwrap`/`expect`, subtraction and loop of the Rust code is an explicit
+  `panic` / `hang` (fuel exhausted) outcome; `Returns` = the outcome is a value or an error.
 -/
 import RumaModel.Lemmas.HttpHeaders
 import RumaModel.Lemmas.RingCompat
@@ -18,6 +26,14 @@ import RumaModel.Props.C11
 import RumaModel.Props.C13
 import RumaModel.Lemmas.EndpointNoPanic
 import RumaModel.Lemmas.EventSign
+import RumaModel.Props.C12
+import RumaModel.Lemmas.ScanMultipart
+import RumaModel.Lemmas.ScanCallMember
+import RumaModel.Lemmas.ScanLang
+import RumaModel.Lemmas.ScanTag
+import RumaModel.Lemmas.ScanPlainReply
+import RumaModel.Lemmas.ScanWordBytes
+import RumaModel.Lemmas.ScanCdEquiv
 namespace Ruma.Props.C17
 open Ruma Ruma.HttpHeaders Ruma.RingCompat
 
@@ -36,7 +52,8 @@ theorem cd_scanners_monotone (s : List Nat) :
 
 /-- **Parsing a `Content-Disposition` value fails exactly** when it has no disposition type
 (only whitespace) or the type is neither `inline`/`attachment` nor a non-empty RFC 7230 token;
-no parameter, however malformed, makes it fail. -/
+no parameter, however malformed, makes it fail. (Phrased with the model's scanning helpers; the
+statement without them is `cd_parse_error_iff_token` in part 2.) -/
 theorem cd_parse_error_iff (s : List Nat) :
     (∃ e, parse s = .error e) ↔
       skipWs s = [] ∨
@@ -143,6 +160,180 @@ theorem hash_and_sign_never_panics (S : Sign.SigScheme) (sha256 : List Nat → L
     (EventSign.hashAndSignEvent S sha256 entity kp e rr).1 ≠ .error .panic :=
   EventSign.hashAndSign_no_panic S sha256 entity kp e rr
 
+/-! # Part 2 — more hand-written scanners -/
+
+section Scanners
+open Ruma.Scan
+
+/-! ## Federation media: `multipart/mixed` body splitter -/
+
+/-- **The `multipart/mixed` splitter of the federation media responses returns for every body**:
+for every boundary without a CR (it went through `HeaderValue::to_str`, which only lets visible
+ASCII, space and tab through), every body of any length and every behaviour of the external stages
+(`serde_json` on the metadata, `httparse` and the header loop on the content headers), none of the
+slices `bytes[a..b]` is out of range, the `unwrap` cannot fail and the empty-line loop ends within its
+fuel `end − headers_start + 1`. -/
+theorem multipart_split_returns (E : ScanMultipart.Ext) (boundary body : Str) (hcr : 13 ∉ boundary) :
+    (ScanMultipart.split E boundary body).Returns :=
+  ScanMultipart.split_returns E boundary body hcr
+
+/-- `parse_multipart_body_part` itself returns whenever it is called with `start ≤ end ≤ len`
+(and panics in its first slice otherwise: `ScanMultipart.parsePart_panics_of_gt`). -/
+theorem multipart_part_returns (bytes : Str) (start end_ : Nat) (h1 : start ≤ end_) (h2 : end_ ≤ bytes.length) :
+    (ScanMultipart.parsePart bytes start end_).Returns :=
+  ScanMultipart.parsePart_returns bytes start end_ h1 h2
+
+/-- The hypothesis on the boundary is needed: with a CR in the boundary the metadata part would be
+sliced with `start > end` (not reachable through `HeaderValue::to_str`). -/
+example : ScanMultipart.split ⟨fun _ => true, fun _ => .file⟩ [13, 10, 45, 45]
+    [45, 45, 13, 10, 45, 45, 13, 10, 45, 45, 13, 10, 45, 45] = .panic := by decide
+
+/-- Non-vacuity: a well-formed response is split into metadata and file. -/
+example : ScanMultipart.split ⟨fun m => m == bs "{}", fun _ => .file⟩ (bs "abc")
+    (bs "\r\n--abc\r\nContent-Type: application/json\r\n\r\n{}\r\n--abc\r\nContent-Type: text/plain\r\n\r\nsome text\r\n--abc--")
+    = .ok (.file (bs "some text")) := by decide
+
+/-- The code before the fix (`memchr(b'\n', &bytes[start..end]).expect(..)`): the first scan of a part
+without any newline panicked. Kept as the machine-checked witness of finding F17. -/
+def parsePartBeforeFix (bytes : Str) (start end_ : Nat) : ScanMultipart.Res (Str × Str) :=
+  match bytesSlice bytes start end_ with
+  | none => .panic
+  | some sl =>
+    match findByte 10 sl with
+    | none => .panic
+    | some k =>
+      ScanMultipart.lineLoop bytes end_ (k + start + 1) (end_ - (k + start + 1) + 1) (k + start + 1)
+
+/-- F17 on the model: two adjacent boundaries (`\r\n--abc\r\n--abc…`) — the metadata part is
+`bytes[7..7]`. -/
+example : parsePartBeforeFix (bs "\r\n--abc\r\n--abc\r\n\r\nx\r\n--abc--") 7 7 = .panic := by decide
+example : ScanMultipart.parsePart (bs "\r\n--abc\r\n--abc\r\n\r\nx\r\n--abc--") 7 7 = .err .sep := by decide
+
+/-! ## `m.call.member` state keys -/
+
+/-- **`CallMemberStateKey::from_str` returns for every string**: the three slices around the first
+colon and the first underscore behind it are in range and on char boundaries, and `UserId::parse` on
+the pieces does not panic (C10's model, for every behaviour of the IP-literal parsers). -/
+theorem call_member_key_returns (x : Ids.Ext) (s : Str) (h : Ids.utf8Valid s = true) :
+    (ScanCallMember.fromStr x s).Returns :=
+  ScanCallMember.fromStr_returns x s (Ids.sep_of_utf8Valid s h)
+
+/-- What it accepts formats back to the input (`Display` of the parsed enum is the raw string that
+`CallMemberStateKey` stores beside it). -/
+theorem call_member_key_display (x : Ids.Ext) (s : Str) (h : Ids.utf8Valid s = true)
+    {k : ScanCallMember.Key} (hk : ScanCallMember.fromStr x s = .ok k) : k.display = s :=
+  ScanCallMember.fromStr_display x s (Ids.sep_of_utf8Valid s h) hk
+
+/-! ## `<code class="language-…">` -/
+
+/-- **The `language-` scan of `CodeData::parse` returns for every attribute value**: the byte before a
+match exists, the slice behind the prefix and the sub-tendril `[language_start, language_end)` are in
+range and on char boundaries, and `language_end − language_start` cannot underflow. -/
+theorem code_language_scan_returns (v : Str) (h : Ids.utf8Valid v = true) :
+    (ScanLang.scanClass v).Returns :=
+  ScanLang.scanClass_returns v (Ids.sep_of_utf8Valid v h)
+
+example : ScanLang.scanClass (bs "hljs language-rust x") = .ok ⟨some (bs "rust"), true⟩ := by decide
+example : ScanLang.scanClass (bs "language-rust") = .ok ⟨some (bs "rust"), false⟩ := by decide
+example : ScanLang.scanClass (bs "xlanguage-a language- b") = .ok ⟨none, true⟩ := by decide
+
+/-! ## `m.tag` tag names -/
+
+/-- **`TagName::display_name` returns for every tag name**, and what it returns is a suffix of the
+name. -/
+theorem tag_display_name_returns (s : Str) (h : Ids.utf8Valid s = true) :
+    (ScanTag.displayNameOf s).Returns ∧ ∀ r, ScanTag.displayNameOf s = .ok r → r <:+ s :=
+  ⟨ScanTag.displayNameOf_returns s (Ids.sep_of_utf8Valid s h),
+   fun _ hr => ScanTag.displayNameOf_suffix s (Ids.sep_of_utf8Valid s h) hr⟩
+
+example : ScanTag.displayNameOf (bs "org.example.work") = .ok (bs "work") := by decide
+example : ScanTag.displayNameOf (bs "u.") = .ok [] := by decide
+
+/-! ## Plain-text reply fallback -/
+
+/-- **`remove_plain_reply_fallback` terminates on every string** (the `while s.starts_with("> ")` loop
+ends within `len + 1` iterations) and returns a suffix of its argument. -/
+theorem plain_reply_fallback_terminates (s : Str) :
+    ∃ r, ScanPlainReply.removeFallback s = .ok r ∧ r <:+ s :=
+  ScanPlainReply.removeFallback_ok s
+
+example : ScanPlainReply.removeFallback (bs "> <@a:h> one\n> two\n\n\nreply") = .ok (bs "\nreply") := by decide
+
+/-! ## Push rules: word matching on `content.body`, at byte level -/
+
+/-- **The literal branch of `matches_word_impl` returns for every text and pattern** (well-formed
+UTF-8 of any length): `char_len`'s loop ends (it is only ever called on an index inside the text),
+`char_at`'s slice is exactly one character so that `char::from_str` cannot fail, `find_prev_char`
+cannot run below index 0, `find_prev_char(end).unwrap()` has a character, the three slices of "find
+next word" are on char boundaries, and the recursion on the rest of the text ends within `len + 1`
+calls. This is the byte-index side of what C12's code-point model takes for granted. -/
+theorem word_match_bytes_returns (s p : Str) (hs : Ids.utf8Valid s = true) (hp : Ids.utf8Valid p = true) :
+    ∃ r, ScanWordBytes.matchesWord s p = .ok r :=
+  ScanWordBytes.matchesWord_ok s p hs hp
+
+/-- `char_at` on a char boundary inside a well-formed text returns one character. -/
+theorem char_at_returns (s : Str) (hs : Ids.utf8Valid s = true) (i : Nat)
+    (hb : Ids.isBoundary s i = true) (hi : i < s.length) : ∃ cs, ScanWordBytes.charAt s i = .ok cs :=
+  ScanWordBytes.charAt_ok hs hb hi
+
+/-- `char_len(index)` with `index = len` does not terminate (the site the callers must and do avoid:
+`word_boundary_end` tests `end == self.len()` first). -/
+example : ScanWordBytes.charLen (bs "ab") 2 = .hang := by decide
+
+example : ScanWordBytes.matchesWord (bs "hi me, you") (bs "me") = .ok true := by decide
+example : ScanWordBytes.matchesWord (bs "home_me") (bs "me") = .ok false := by decide
+example : ScanWordBytes.matchesWord [0xc3, 0xa9, 109, 101] (bs "me") = .ok true := by decide
+
+/-! ## `Content-Disposition`, index-faithful -/
+
+/-- **`ContentDisposition::try_from(&[u8])` returns for every byte string**, in the model that keeps
+the Rust cursor `pos: &mut usize`: none of the four `bytes[*pos]` and three `&bytes[a..b]` can fail
+(the cursor stays inside `[0, len]`), the four scanning loops end within `len − pos + 1` steps, and
+the parameter loop makes progress on every iteration. -/
+theorem cd_index_model_returns (bytes : Str) : (ScanCd.parseI bytes).Returns :=
+  ScanCd.parseI_returns bytes
+
+/-- **The index-faithful model and the suffix-passing model of part 1 are the same function**, so
+every statement of part 1 about `HttpHeaders.parse` (e.g. `cd_parse_error_iff`) is a statement about
+the code with its cursor arithmetic. -/
+theorem cd_index_model_eq_suffix_model (bytes : Str) :
+    ScanCd.parseI bytes = ScanCd.liftRes (HttpHeaders.parse bytes) :=
+  ScanCd.parseI_eq_parse bytes
+
+/-- What `parse_multipart_body_part` returns: `bytes[start..end]` is a rest of the boundary line
+without newline, a newline, the headers, an empty line (`\r\n` or `\n`) and the content. -/
+theorem multipart_part_shape (bytes : Str) (start end_ : Nat) (h1 : start ≤ end_) (h2 : end_ ≤ bytes.length)
+    {h c : Str} (hr : ScanMultipart.parsePart bytes start end_ = .ok (h, c)) :
+    ∃ pre nl, 10 ∉ pre ∧ (nl = [13, 10] ∨ nl = [10]) ∧
+      bytesSlice bytes start end_ = some (pre ++ [10] ++ h ++ nl ++ c) :=
+  ScanMultipart.parsePart_ok_shape bytes start end_ h1 h2 hr
+
+/-- **When parsing a `Content-Disposition` value fails**, stated without any helper of the model: let
+`t` be the value's type token — skip leading ASCII whitespace, then take the longest run of bytes that
+are neither ASCII whitespace nor `;` (`ScanCd.typeToken`, two standard list functions). Parsing fails
+iff `t` is neither `inline` nor `attachment` (ASCII case-insensitively) nor a non-empty RFC 7230
+token; nothing behind the type token can make it fail. Holds for the index-faithful model as well
+(`cd_index_model_eq_suffix_model`). -/
+theorem cd_parse_error_iff_token (s : Str) :
+    (∃ e, HttpHeaders.parse s = .error e) ↔
+      ¬ (HttpHeaders.eqIgnoreCase (ScanCd.typeToken s) (bs "inline") = true ∨
+         HttpHeaders.eqIgnoreCase (ScanCd.typeToken s) (bs "attachment") = true ∨
+         (ScanCd.typeToken s ≠ [] ∧ ∀ b ∈ ScanCd.typeToken s, HttpHeaders.isTchar b = true)) :=
+  ScanCd.parse_error_iff_token s
+
+example : ScanCd.typeToken (bs "  form-data ; name=x") = bs "form-data" := by decide
+
+/-! ## Push rule evaluation (C12's code-point model) -/
+
+/-- `Ruleset::get_match` never panics (C12's model: `char_at` beyond the end and
+`find_prev_char(..).unwrap()` are its panic outcomes), given C12's assumptions about `regex` and
+`wildmatch`. The byte-level counterpart for the literal word matcher is `word_match_bytes_returns`. -/
+theorem push_rule_evaluation_never_panics (E : Push.Ext) (hE : Push.ExtOk E) (rs : Push.Ruleset)
+    (ev : Push.PJ) (ctx : Push.Ctx) : ∃ r, Push.getMatch E rs ev ctx = .ok r :=
+  ⟨_, C12.getMatch_first_enabled E hE rs ev ctx⟩
+
+end Scanners
+
 #print axioms cd_param_loop_progress
 #print axioms cd_scanners_monotone
 #print axioms cd_parse_error_iff
@@ -156,4 +347,18 @@ theorem hash_and_sign_never_panics (S : Sign.SigScheme) (sha256 : List Nat → L
 #print axioms ruleset_edits_never_panic
 #print axioms endpoint_url_never_panics
 #print axioms hash_and_sign_never_panics
+#print axioms multipart_split_returns
+#print axioms multipart_part_returns
+#print axioms call_member_key_returns
+#print axioms call_member_key_display
+#print axioms code_language_scan_returns
+#print axioms tag_display_name_returns
+#print axioms plain_reply_fallback_terminates
+#print axioms word_match_bytes_returns
+#print axioms char_at_returns
+#print axioms cd_index_model_returns
+#print axioms cd_index_model_eq_suffix_model
+#print axioms multipart_part_shape
+#print axioms cd_parse_error_iff_token
+#print axioms push_rule_evaluation_never_panics
 end Ruma.Props.C17
